@@ -6,6 +6,7 @@
 #include <json/json.h>
 #include <sys/types.h>
 #include <cstdint>
+#include <deque>
 #include <map>
 #include <optional>
 #include <set>
@@ -80,7 +81,9 @@ struct ProcFs {
 };
 
 struct World {
-  std::vector<Cg> cgs; // all incarnations ever (dead ones keep alive=false)
+  // all incarnations ever (dead ones keep alive=false); a deque, so that a
+  // Cg* held by a wrapper stays valid when a mid-access edit adds one
+  std::deque<Cg> cgs;
   std::map<std::string, int> live; // rel path -> index in cgs
   std::map<ino_t, int> byIno; // directory inode -> index in cgs
   ProcFs proc;
